@@ -4,6 +4,16 @@ import os
 import vbuild
 
 CHECKS = {
+    "C01": {
+        "harness": "c01",
+        "level": "exploration",
+        "floor": {"quick": 500, "thorough": 1000},
+        "timeout": {"quick": 1500, "thorough": 7200},
+        "assumptions": [
+            "synthesised files respect the format preconditions listed in DESIGN.md section 2.3 (BSGeometry mesh slots filled from the front)",
+            "the first write may normalise; only a non-idempotent normalisation or a read/write asymmetry counts",
+        ],
+    },
     "C05": {
         "harness": "c05",
         "level": "exploration",
